@@ -9,6 +9,10 @@ CHECKS = {
    text="Lean theorems: find_punctuator model returns the longest enabled prefix (over the regenerated punctuator table); whitespace insertion never changes the token list of the specification lexer (generic theorem + code/directive instances); the fusion guard of space_text() is complete for word/number/punctuator pairs outside an explicit gap list, each gap a proved witness; the output machine emits the chunk texts once, in order (render_vis), every CR/LF is a whole terminator; character-level pipeline under monitored hypotheses. Tie: T-punct/T-chars regenerated each run, findPunct vs find_punctuator exhaustively (thorough), forceSpace vs PCF_FORCE_SPACE, hook-trace replay through Render. Monitors H-loss/H-text on the chunk dumps of every run. Oracle: input and output re-lexed by the independent specification lexer (C family) or uncrustify's own tokenizer (other languages)",
    note="trusted: Lean kernel; specification lexer and models validated by correspondence/corpus quietness; H-loss/H-text are monitored, not proved for the unmodelled passes; fusion-guard gaps are genuine defects listed in known_findings.json",
    technique="Lean 4 proof over hand-written models + regenerated tables + hook correspondence + monitors + independent re-lexing oracle"),
+ "C03": dict(level="proof", design="6/C03",
+   text="PARTIAL for comment bodies. Lean theorems: every chunk's text / every comment's recorded ops are emitted exactly once and in order (render_vis); a literal's text is written verbatim with is_literal (literal_verbatim, text_chunk_verbatim: tabs survive, only pending blanks precede it); the permitted comment normalisation is idempotent and identifies exactly the texts that differ by re-indentation/trailing blanks (C03_norm_idem, C03_norm_relayout). Tie: hook-trace replay through Render; monitors on the dumps (comment chunks at P1 = at P0, code text unchanged). Oracle: comments and literals extracted from input and output by the independent specification lexer: literals byte-identical, comments equal after the permitted normalisation, same order",
+   note="the comment writers (2000 lines) are an oracle: comment bodies are checked by the oracle and the op-trace tie, not proved; C family only for the independent extraction",
+   technique="Lean 4 proof over hand-written models + hook correspondence + monitors + independent extraction oracle"),
  "C06": dict(level="proof", design="6/C06",
    text="PARTIAL. Proved (Lean, over a table regenerated from the source each run): every exit()/main-return status in the sources is a documented status; the newline loop runs at most four times. Everything else the property says - no signal, no memory-safety/UB fault, bounded time, nothing on stdout when refused, a diagnostic on stderr - cannot be exhibited by an executable model and is EXPLORED: mutated corpus inputs (truncations, bracket/token edits, unterminated constructs, byte flips, random bytes, foreign language) in all nine languages under their test configs with a timeout; quick = fixed universe + seed-dependent part on the release build, thorough = seed-dependent on the ASan+UBSan build. Failures are identified by call site (gdb: pass + innermost function) for the known-findings list",
    note="exploration, not proof, for memory safety / UB / hangs (DESIGN.md 6/C06, 10); trusted: T-exit translator, timeout 20 s, gdb signatures; known defects of the unchanged tree listed by call site in known_findings.json",
@@ -29,6 +33,10 @@ CHECKS = {
    text="Lean theorem: non-interference for every finite file sequence from a classification of all process-global state (K/R/W/D); the classification is total over inventories regenerated from the source on every run (members of cp_data_t, assignments in uncrustify_end(), writable globals from nm), contains no unsafe location and every R member is assigned in uncrustify_end(); the restore hypothesis is monitored by the digest hook at the head of every file of every batch, a monitor failure triggers a steered search for a file formatted differently; direct oracle: batch outputs vs single outputs (pairs, triples, -F lists, mixed languages/encodings/terminators/regions, with and without -l)",
    note="trusted: Lean kernel; T-reset translator; committed classification (W-class locations are assumed written before read, checked only through the oracle); digest hook H4",
    technique="Lean 4 proof (non-interference) + regenerated state inventory + digest monitor + differential batch/single runs"),
+ "C18": dict(level="proof", design="6/C18",
+   text="PARTIAL. Lean theorems about a stack-machine model of the frame handling of indent_text() for plain block structure: every first-on-line token is placed at 1 + depth*indent_columns (closing brace at the opener's column, case label at the switch's brace column), the model has no access to original columns; tabs/spaces realisation from Props/Render.lean. The model is specification-shaped, so the evidence about indent_text() is the tie: differential run of the real columns against the model on generated block-structured programs (the generator knows the lexical depth independently) and the metamorphic oracle (4 random original layouts of the same token structure must get identical columns), over indent_columns 1..16, indent_with_tabs 0..2, output_tab_size",
+   note="indent_text() itself is an oracle; claims restricted to the generator's program class (if/else chains, loops, switch/case, do-while, bare blocks, brace-less bodies; default brace style); comment, preprocessor and continuation lines excluded as the property says",
+   technique="Lean 4 proof over a specification-shaped model + differential and metamorphic correspondence"),
  "C17": dict(level="proof", design="6/C17",
    text="Lean theorems about the output machine: after every visible text chunk nothing blank is pending or last written, so a NEWLINE chunk emits exactly its terminators (no trailing blank); indentation written by output_to_column is tabs-then-spaces, spaces only with tabs off; file-edge policy (eat_start_end + do_blank_lines edge rule). Tie: hook-trace replay through the model on every run, eatEdge/fileEdge model vs real edge breaks; monitor of the WF hypothesis at P1; op-level and byte-level oracles",
    note="trusted: Lean kernel; models AddChar/Render/EatSE validated by correspondence; comment interiors, literals, disabled regions excluded as the property says; WF of chunk texts is monitored, not proved",
